@@ -207,4 +207,4 @@ def shrink(f):
     return f
 
 def replay(obj):
-    return oracles.impl_models(obj["text"], obj.get("h", 3))
+    return oracles.replay_record(obj, 3)
